@@ -50,7 +50,7 @@ SumFn(fn) == IF DOMAIN fn = {} THEN 0
 FineLoop(f, g, GF, x0, y0, x1, y1, nc, mx, my, rev, pitch) ==
     LET s == 2 ^ (GF - g)
     IN  [f |-> f, X0 |-> x0 * s, Y0 |-> y0 * s, X1 |-> x1 * s, Y1 |-> y1 * s, nc |-> nc,
-         MX |-> mx * s, MY |-> my * s, rev |-> rev, m |-> pitch * s]
+         MX |-> mx * s, MY |-> my * s, rev |-> rev, m |-> pitch * s, glue |-> 0]
 
 WellFormed(l, GF) ==
     /\ l.f \in Faces /\ 0 <= l.X0 /\ l.X0 < l.X1 /\ l.X1 <= Side(GF)
@@ -117,6 +117,27 @@ RotateTo(sq, j) == [k \in 1..Len(sq) |-> sq[((j + k - 2) % Len(sq)) + 1]]
 SecondIs(sq, pt) == LET j == CHOOSE k \in 1..Len(sq) : sq[k] = pt
                     IN  RotateTo(sq, IF j = 1 THEN Len(sq) ELSE j - 1)
 IsRotationOf(a, b) == Len(a) = Len(b) /\ \E j \in 1..Len(b) : a = RotateTo(b, j)
+
+(* A loop over TWO faces.  Face f+1 continues face f across the side x = N of f (= side x = 0
+   of f+1, same y) when f is even, and across the side y = N of f (= side y = 0 of f+1, same x)
+   when f is odd (the harness re-checks this adjacency numerically).  Two rectangles l2 on the
+   face f-1 and l1 on the face f, with the same transverse extent and both touching the common
+   side, are the two halves of one region whose boundary is a single loop; as a region it is
+   the polygon <<l1, l2>> (disjoint halves, parity = union; reversing l1 gives exactly the
+   complement).  GlueVerts is the boundary: the path around l1 between its two corners on the
+   common side, then the path around l2 strictly between its corners on that side.
+   Vertices are <<face, x, y>>.  Such a loop has very few vertices and face-sized index cells. *)
+Transpose(l) == [l EXCEPT !.X0 = l.Y0, !.Y0 = l.X0, !.X1 = l.Y1, !.Y1 = l.X1, !.MX = l.MY, !.MY = l.MX]
+PathBetween(v, a, b) == LET r == RotateTo(v, CHOOSE k \in 1..Len(v) : v[k] = a)
+                        IN  SubSeq(r, 1, CHOOSE k \in 1..Len(r) : r[k] = b)
+GlueVerts(l1, v1, l2, v2, N) ==
+    LET alongX == (l2.f % 2 = 0)
+        s1 == IF alongX THEN PathBetween(v1, <<0, l1.Y0>>, <<0, l1.Y1>>)
+                        ELSE PathBetween(v1, <<l1.X1, 0>>, <<l1.X0, 0>>)
+        s2 == IF alongX THEN PathBetween(v2, <<N, l2.Y1>>, <<N, l2.Y0>>)
+                        ELSE PathBetween(v2, <<l2.X0, N>>, <<l2.X1, N>>)
+    IN  [k \in 1..Len(s1) |-> <<l1.f, s1[k][1], s1[k][2]>>]
+        \o [k \in 1..(Len(s2) - 2) |-> <<l2.f, s2[k + 1][1], s2[k + 1][2]>>]
 
 \* grid point (x,y) of face l.f lies on the boundary: the four cells around it disagree
 OnBoundary(l, x, y) ==
